@@ -311,7 +311,11 @@ func c02Rearranged(cs *core.Case, decoded []rtcp.Packet, kfs []string) {
 // valueOf is the shared value stream of C02 / C03 / C10: kind by index, value by the case PRNG.
 func valueOf(cs *core.Case, o gen.Opts) rtcp.Packet {
 	k := gen.Kind(cs.Idx % uint64(gen.NumKinds))
-	return gen.Packet(cs.R, k, o)
+	p := gen.Packet(cs.R, k, o)
+	if cs.Idx/uint64(gen.NumKinds)%4 == 3 && k != gen.Raw {
+		p = correlate(cs.R, p) // a quarter of the values: two numeric fields tied to each other
+	}
+	return p
 }
 
 func runC02(c *core.Ctx) {
